@@ -191,3 +191,30 @@ pub fn digest(bytes: &[u8]) -> [i64; 2] {
     }
     [(h & 0x7fff_ffff) as i64, ((h >> 32) & 0x7fff_ffff) as i64]
 }
+
+/// f32 components as three parallel arrays: value = s * m * 2^e (s in {-1,0,1});
+/// non-finite values are marked by s = 2 (NaN), 3 (+inf), -3 (-inf).
+pub fn f32_dyadic_arrays(bytes: &[u8]) -> serde_json::Value {
+    let mut s = vec![];
+    let mut m = vec![];
+    let mut e = vec![];
+    for bits in bytes_to_f32bits(bytes) {
+        let sign: i64 = if bits >> 31 != 0 { -1 } else { 1 };
+        let exp = ((bits >> 23) & 0xff) as i64;
+        let frac = (bits & 0x7f_ffff) as i64;
+        if exp == 255 {
+            s.push(if frac != 0 { 2 } else { 3 * sign });
+            m.push(0);
+            e.push(0);
+        } else if exp == 0 {
+            s.push(if frac == 0 { 0 } else { sign });
+            m.push(frac);
+            e.push(if frac == 0 { 0 } else { -149 });
+        } else {
+            s.push(sign);
+            m.push(frac | (1 << 23));
+            e.push(exp - 150);
+        }
+    }
+    serde_json::json!({"s": s, "m": m, "e": e})
+}
